@@ -229,6 +229,7 @@ theorem nestedDe_sealed (o : Opts) (inner : Buf → Nat → Except Err (Val × N
   rw [bitsOf_remaining hcap hal] at hf
   unfold nestedDe
   simp only [Bool.false_eq_true, if_false]
+  rw [assertC_ok o hal]
   cases hsp : deBits T ((bitsOf buf cap).drop off) with
   | error e =>
     rw [hsp] at hf
@@ -265,6 +266,7 @@ theorem nestedDe_delim (o : Opts) (hs : o.Sound) (inner : Buf → Nat → Except
     simp only [hbad, this, if_true, DeRefines, embedD]
   · have hnb : ¬ 8 * h > ((bitsOf buf cap).drop (off + 32)).length := by rw [hrl]; rw [hrem] at hbad; omega
     simp only [hbad, hnb, if_false]
+    rw [assertC_ok o (show (off + 32) % 8 = 0 by omega)]
     have hf := hfn (buf.drop ((off + 32) / 8)) h (WF_drop hw _) (by rw [List.length_drop]; rw [hrem] at hbad; omega)
     rw [bitsOf_sub' hcap (by rw [hrem] at hbad; omega)] at hf
     have e : 8 * ((off + 32) / 8) = off + 32 := by omega
@@ -283,14 +285,14 @@ theorem nestedDe_delim (o : Opts) (hs : o.Sound) (inner : Buf → Nat → Except
 
 /-! ### the function skeleton -/
 
-theorem topDe_fnOK (maxB : Nat) (triv : Val) (body : Buf → Nat → Except Err (Val × Nat)) (T : Ty)
+theorem topDe_fnOK (o : Opts) (maxB : Nat) (triv : Val) (body : Buf → Nat → Except Err (Val × Nat)) (T : Ty)
     (specBody : List Bool → Except DeErr (Val × Nat))
     (hT : ∀ bs, deBits T bs = match specBody bs with
       | .ok (v, off) => .ok (v, padTo 8 off)
       | .error e => .error e)
     (hbody : ∀ sub size, WF sub → size ≤ sub.length → DeRefines (body sub size) (specBody (bitsOf sub size)) size 0)
     (h0 : maxB = 0 → ∀ bs, deBits T bs = .ok (triv, 0)) :
-    DeFnOK (topDe maxB triv body) T := by
+    DeFnOK (topDe o maxB triv body) T := by
   intro sub size hw hsz
   unfold topDe
   by_cases hz : maxB = 0
@@ -310,6 +312,8 @@ theorem topDe_fnOK (maxB : Nat) (triv : Val) (body : Buf → Nat → Except Err 
       simp only [DeRefines] at hb
       obtain ⟨off', hb', hrel⟩ := hb
       simp only [hb', chooseMin_eq, padDe_eq 8 off' (Or.inr rfl)]
+      rw [assertC_ok o (padTo_mod (a := 8) (Or.inr rfl) off'),
+        assertC_ok o (show size ≥ min (padTo 8 off') (size * 8) / 8 by omega)]
       have := Rel.pad (a := 8) (Or.inr rfl) hrel
       simp only [Nat.zero_add] at this
       obtain ⟨r1, _, r3⟩ := this
